@@ -320,6 +320,7 @@ def run(tier: str, seed: int, rep: Report, model: Model) -> dict:
     rep.rule = ("7 signature shapes (positional-only, keyword-only, defaults incl. unhashable, *args, **kwargs) x their call styles, exception "
                 "identity, method kinds, forwarding to wrapped (*args, **kwargs) callables, violating defaults; NamedTuple and 7 dataclass option sets: fields, equality, repr, isinstance, immutability, pickling, "
                 "replace; compared with undecorated twins; distinct = distinct observation; all non-trivial")
+    rep.rule += '; plus functools.wraps wrappers as the decorated object (call form, violating arguments), signatures with surplus positionals next to omitted keyword-only defaults, violating defaults, dataclass inheritance and a field(init=False) filled by __post_init__'
     rep.notes.append("partial: the object-model comparisons are tests against undecorated twins, not theorems")
     worker = ImplWorker("harness.props.c16")
     try:
